@@ -294,6 +294,8 @@ func (t *realSide) HolderTx(ctx sdk.Context, c, holder common.Address, call stri
 		data, err = a.Pack("transfer", to, amt)
 	case "burn":
 		data, err = a.Pack("burn", amt)
+	case "approve":
+		data, err = a.Pack("approve", to, amt)
 	default:
 		return fmt.Errorf("unknown call %s", call)
 	}
